@@ -14,7 +14,9 @@ C  oracle (independent Python reading of the statement): a reached undefined ref
    END TO END: every cell of generated flow sheets with ONE injected missing name (library: not
    ok; CLI sample: exit ≠ 0, no output file), control with the name defined ⇒ the same flow as
    the literal sheet; indexes (data column absent, argument not declared, misspelt argument,
-   loop variable after end_for, …); excluded blocks / empty loops are not evaluated.
+   loop variable after end_for, …); excluded blocks / empty loops are not evaluated; ONE template
+   instantiated several times in one run (independence of instantiations: no name, value or loop
+   variable of an earlier instantiation is visible to a later one).
 """
 from __future__ import annotations
 
@@ -33,7 +35,7 @@ from ..flows import LogCapture, compile_flow_sheet, compile_index, rename_uuids_
 from ..gen import sheets as G
 
 MANIFEST = dict(
-    text="Proof: Lean theorems over a model of the templating step (mini template language lit/var/escVar/seq/forJoin/ifEq + native {@ path @}, contexts of nested records and lists, both Jinja `undefined` policies): undefined_is_error (a REACHED undefined reference makes a strict rendering an error — text, native, and at the parse_as_string/parse boundary for every context and padding), error_has_cause + undefined_error_kind (the error names a reached undefined reference; no spurious errors), defined_exact (all reached references usable ⇒ under both policies exactly the template with each reference replaced by its value), lenient_blank / needs_strict / needs_native_check (negative witnesses: what Jinja's default did before the fix), shortcut_exact (the no-`{` shortcut never skips a reference), omitted_unevaluated (context None ⇒ stripped cell, render never called), if_false_unevaluated / for_empty_unevaluated, policy_is_strict + tables_agree (T1: StrictUndefined on BOTH environments and the native Undefined check, re-extracted from the source by ast and from the live objects on every run). Tie: generated (template, context) pairs (every reference kind × every way of being missing) through the real CellParser vs the driver, lenient model vs Jinja's default environments; end to end: every cell of generated sheets with one injected missing name (library + CLI sample), defined control ≡ literal sheet, index workbooks, excluded blocks.",
+    text="Proof: Lean theorems over a model of the templating step (mini template language lit/var/escVar/seq/forJoin/ifEq + native {@ path @}, contexts of nested records and lists, both Jinja `undefined` policies): undefined_is_error (a REACHED undefined reference makes a strict rendering an error — text, native, and at the parse_as_string/parse boundary for every context and padding), error_has_cause + undefined_error_kind (the error names a reached undefined reference; no spurious errors), defined_exact (all reached references usable ⇒ under both policies exactly the template with each reference replaced by its value), lenient_blank / needs_strict / needs_native_check (negative witnesses: what Jinja's default did before the fix), shortcut_exact (the no-`{` shortcut never skips a reference), omitted_unevaluated (context None ⇒ stripped cell, render never called), if_false_unevaluated / for_empty_unevaluated, policy_is_strict + tables_agree (T1: StrictUndefined on BOTH environments and the native Undefined check, re-extracted from the source by ast and from the live objects on every run). Tie: generated (template, context) pairs (every reference kind × every way of being missing) through the real CellParser vs the driver, lenient model vs Jinja's default environments; end to end: every cell of generated sheets with one injected missing name (library + CLI sample), defined control ≡ literal sheet, index workbooks, excluded blocks; one template instantiated several times in one run from differently shaped contexts (two data sheets with different columns in both orders, data sheet then none, bulk then single row, argument sets, insert_as_block twice, loop variables): every instantiation must behave exactly as in a fresh run of its own — rejected when it names something only an EARLIER instantiation defined, exact own values otherwise (library + CLI sample).",
     ref="§5 C16",
     note="Trusts: Lean kernel (axioms audited each run); Jinja2's lexer/parser/evaluator on the generated fragment (modelled, compared on every case, not verified); harness printers and Driver JSON codec; the end-to-end clauses (delivered_no_blank over whole sheets) are checked on the real compiler per explored sheet, not proved (no compiler model for templated sheets). Known findings: F-C16-b (a single row with false include_if is templated before it is dropped), F-C16-c (an undefined name nested in a list/tuple/dict literal is delivered as `Undefined`).",
     technique="Lean 4 proof (induction on templates / on the Reached derivation) + T1 configuration tables + differential run against the real CellParser + fault injection at every cell of real sheets (library and CLI)",
@@ -982,6 +984,320 @@ def known_findings_stream(ck):
             ck.count("known_F-C16-c_forms", len(seen))
 
 
+# ------------------------------------------------------------------ end to end: ONE template instantiated SEVERAL times in one run
+# Instantiations are independent: what a run delivers for an instantiation (or that it is
+# rejected) must be what a FRESH run of that instantiation alone delivers.  In particular a name
+# that only an EARLIER instantiation of the same template defined (a column of another data sheet,
+# a data row where the next has none, a loop variable) is undefined for a LATER one.
+
+M_POOL = ["name", "city", "kind", "amount", "colour"]
+M_ARGS = ["arg1", "arg2"]
+M_LV = "lv"
+M_SCENARIOS = ["two_sheets", "sheet_then_none", "bulk_then_single", "args", "insert_twice_same_flow", "insert_two_flows", "loop", "mixed"]
+TNAME = "tmpl"
+
+
+def messages_by_flow(doc):
+    out = {}
+    for f in doc["flows"]:
+        out[f["name"]] = [a["text"] for n in f["nodes"] for a in n.get("actions", []) if a.get("type") == "send_msg"]
+    return out
+
+
+def m_template(rng, refs, loop, tail_lv):
+    """rows of the template + description for the by-construction oracle.
+    desc: ("msg", k, [names]) | ("loop", [items], [("msg", k, [names])])"""
+    rows, desc = [], []
+    k = 0
+    prev = "start"
+
+    def text(k, names):
+        return f"m{k}" + "".join(" " + n + "=" + rng.choice(["{{%s}}", "{{ %s }}", "{{%s|escape}}"]) % n for n in names)
+
+    def some(names):
+        names = [n for n in names if rng.random() < 0.7] or list(names[:1])
+        return names
+
+    n_rows = rng.randint(1, 2)
+    for _ in range(n_rows):
+        names = some(refs)
+        rows.append({"row_id": f"r{k}", "type": "send_message", "from": prev, "message_text": text(k, names)})
+        desc.append(("msg", k, names))
+        prev = f"r{k}"
+        k += 1
+    if loop:
+        items = ["p", "q"][: rng.randint(1, 2)]
+        names = some(refs) + [M_LV]
+        rows.append({"row_id": "L", "type": "begin_for", "from": prev, "message_text": ";".join(items) + (";" if len(items) == 1 else ""), "loop_variable": M_LV})
+        rows.append({"row_id": f"r{k}", "type": "send_message", "from": "", "message_text": text(k, names)})
+        rows.append({"row_id": "", "type": "end_for"})
+        desc.append(("loop", items, [("msg", k, names)]))
+        prev = "L"
+        k += 1
+        names = some(refs) + ([M_LV] if tail_lv else [])
+        rows.append({"row_id": f"r{k}", "type": "send_message", "from": prev, "message_text": text(k, names)})
+        desc.append(("msg", k, names))
+    return rows, desc
+
+
+def m_expect(desc, ctx):
+    """messages of one instantiation, or None when a delivered row names something undefined
+    (sheet-level scoping: the loop variable is gone after end_for, an outer variable of that name is back)"""
+    ctx = dict(ctx)
+    out = []
+
+    def msg(k, names):
+        if any(n not in ctx for n in names):
+            raise KeyError
+        out.append(f"m{k}" + "".join(f" {n}={ctx[n]}" for n in names))
+
+    try:
+        for item in desc:
+            if item[0] == "msg":
+                msg(item[1], item[2])
+            else:
+                outer = ctx.get(M_LV)
+                for e in item[1]:
+                    ctx[M_LV] = e
+                    for b in item[2]:
+                        msg(b[1], b[2])
+                ctx.pop(M_LV, None)
+                if outer is not None:
+                    ctx[M_LV] = outer      # an outer variable of the same name is visible again
+    except KeyError:
+        return None
+    return out
+
+
+def gen_multi(rng):
+    kind = rng.choice(M_SCENARIOS)
+    pivot = rng.choice(M_POOL)
+    use_args = kind == "args" or rng.random() < 0.4
+    loop = kind == "loop" or (kind == "mixed" and rng.random() < 0.3)
+    tail_lv = loop and rng.random() < 0.25
+    refs = [n for n in M_POOL if n != pivot and rng.random() < 0.4]
+    only_args = kind in ("sheet_then_none", "args") and rng.random() < 0.4
+    if only_args:
+        refs = []
+        use_args = True
+    elif rng.random() < 0.85:
+        refs.append(pivot)
+    if use_args:
+        refs += [a for a in M_ARGS if rng.random() < 0.7] or ["arg1"]
+    if not refs:
+        refs = [pivot]
+    rng.shuffle(refs)
+    trows, desc = m_template(rng, refs, loop, tail_lv)
+    # data sheets: `sa` has every referenced column; `sb` lacks the pivot (or, as control, has it too)
+    pool_refs = [n for n in refs if n in M_POOL]
+    cols_a = sorted(set(pool_refs) | {n for n in M_POOL if rng.random() < 0.3} | {pivot})
+    b_lacks = rng.random() < 0.7
+    cols_b = [c for c in cols_a if c != pivot or not b_lacks]
+    if rng.random() < 0.3:
+        cols_b = [c for c in cols_b if rng.random() < 0.8]
+    if tail_lv and rng.random() < 0.5:
+        cols_a = cols_a + [M_LV]        # a data column named like the loop variable
+    sheets_cols = {"sa": cols_a, "sb": cols_b}
+    if kind == "mixed" and rng.random() < 0.5:
+        sheets_cols["sc"] = [c for c in M_POOL if rng.random() < 0.5]
+    data = {}
+    for sn, cols in sheets_cols.items():
+        data[sn] = [dict({"ID": f"{sn}{i}"}, **{c: f"{sn}{i}{c}" for c in cols}) for i in range(rng.randint(1, 2))]
+
+    def args():
+        r = rng.random()
+        return "" if r < 0.3 else (rng.choice(["A1", "X"]) if r < 0.6 else rng.choice([";B2", "A1;B2", "Y;Z"]))
+
+    def inst(t, sn=None):
+        sn = sn or rng.choice(sorted(data))
+        if t == "bulk":
+            return {"t": "bulk", "sheet": sn, "args": args()}
+        if t == "single":
+            return {"t": "single", "sheet": sn, "row": rng.choice(data[sn])["ID"], "args": args()}
+        if t == "nodata":
+            return {"t": "nodata", "args": args()}
+        raise AssertionError(t)
+
+    def ins(sn=None):
+        sn = sn or rng.choice(sorted(data))
+        return {"sheet": sn, "row": rng.choice(data[sn])["ID"], "args": args()}
+
+    if kind in ("two_sheets", "loop"):
+        insts = [inst("bulk", "sa"), inst("bulk", "sb")]
+    elif kind == "sheet_then_none":
+        insts = [inst(rng.choice(["bulk", "single"]), "sa"), inst("nodata")]
+    elif kind == "bulk_then_single":
+        insts = [inst("bulk", "sa"), inst("single", "sb")]
+    elif kind == "args":
+        insts = [inst("nodata"), inst("nodata"), inst("single", "sa")]
+    elif kind == "insert_twice_same_flow":
+        insts = [{"t": "insert", "ins": [ins("sa"), ins("sb")] + ([ins()] if rng.random() < 0.3 else [])}]
+    elif kind == "insert_two_flows":
+        insts = [{"t": "insert", "ins": [ins("sa")]}, {"t": "insert", "ins": [ins("sb")]}]
+        if rng.random() < 0.4:
+            insts.append(inst("bulk", "sb"))
+    else:
+        insts = []
+        for _ in range(rng.randint(3, 4)):
+            t = rng.choice(["bulk", "single", "nodata", "insert"])
+            insts.append({"t": "insert", "ins": [ins() for _ in range(rng.randint(1, 2))]} if t == "insert" else inst(t))
+    for k, i in enumerate(insts):
+        i["k"] = k
+    return {"kind": kind, "template": trows, "desc": desc, "data": data, "cols": sheets_cols, "insts": insts, "pivot": pivot, "refs": refs}
+
+
+ARG_DEFAULTS = {"arg1": "d1", "arg2": "d2"}
+
+
+def m_ctx(sc, sheet, row, args):
+    ctx = {}
+    if sheet:
+        ctx.update(next(r for r in sc["data"][sheet] if r["ID"] == row))
+    vals = (args.split(";") + ["", ""])[:2]
+    for a, v in zip(M_ARGS, vals):
+        ctx[a] = v or ARG_DEFAULTS[a]
+    return ctx
+
+
+def m_expected_flows(sc, i):
+    """{flow name: messages | None} that instantiation i is to deliver"""
+    d = sc["desc"]
+    k = i["k"]
+    if i["t"] == "bulk":
+        return {f"f{k} - {r['ID']}": m_expect(d, m_ctx(sc, i["sheet"], r["ID"], i["args"])) for r in sc["data"][i["sheet"]]}
+    if i["t"] == "single":
+        return {f"f{k} - {i['row']}": m_expect(d, m_ctx(sc, i["sheet"], i["row"], i["args"]))}
+    if i["t"] == "nodata":
+        return {f"f{k}": m_expect(d, m_ctx(sc, None, None, i["args"]))}
+    parts = [m_expect(d, m_ctx(sc, x["sheet"], x["row"], x["args"])) for x in i["ins"]]
+    return {f"main{k}": None if any(p is None for p in parts) else [f"main{k}"] + [m for p in parts for m in p]}
+
+
+def m_workbook(sc, insts):
+    idx = [{"type": "data_sheet", "sheet_name": sn} for sn in sorted(sc["data"])]
+    idx.append({"type": "template_definition", "sheet_name": TNAME, "template_arguments": "arg1;;d1|arg2;;d2"})
+    sheets = {TNAME: rows_to_csv(G.HEADERS, sc["template"])}
+    for sn, rows in sc["data"].items():
+        sheets[sn] = rows_to_csv(["ID"] + sc["cols"][sn], rows)
+    for i in insts:
+        k = i["k"]
+        if i["t"] == "insert":
+            main = [{"row_id": "m0", "type": "send_message", "from": "start", "message_text": f"main{k}"}]
+            prev = "m0"
+            for j, x in enumerate(i["ins"]):
+                main.append({"row_id": f"i{j}", "type": "insert_as_block", "from": prev, "message_text": TNAME, "data_sheet": x["sheet"],
+                             "data_row_id": x["row"], "template_arguments": x["args"]})
+                prev = f"i{j}"
+            sheets[f"main{k}"] = rows_to_csv(G.HEADERS, main)
+            idx.append({"type": "create_flow", "sheet_name": f"main{k}"})
+        else:
+            idx.append({"type": "create_flow", "sheet_name": TNAME, "data_sheet": i.get("sheet", ""), "data_row_id": i.get("row", ""),
+                        "new_name": f"f{k}", "template_arguments": i["args"]})
+    sheets["content_index"] = rows_to_csv(IH, idx)
+    return sheets
+
+
+def m_reverse(insts):
+    out = []
+    for i in reversed(insts):
+        i = dict(i)
+        if i["t"] == "insert":
+            i["ins"] = list(reversed(i["ins"]))
+        out.append(i)
+    return out
+
+
+def m_names(sc, i):
+    """names each instantiation step defines, in order (for the stale-prone stratum)"""
+    steps = i["ins"] if i["t"] == "insert" else [i]
+    return [set(m_ctx(sc, x.get("sheet"), x.get("row") or (sc["data"][x["sheet"]][0]["ID"] if x.get("sheet") else None), x["args"])) for x in steps]
+
+
+def multi_check(sc):
+    """→ (violations, stats, cli candidates) for one scenario, both orders"""
+    viol, stats, cli = [], {}, []
+
+    def bump(k, v=1):
+        stats[k] = stats.get(k, 0) + v
+
+    bump("multi.scenarios")
+    bump("multi.kind." + sc["kind"])
+    # each instantiation alone, in a fresh run
+    solo_ok = {}
+    for i in sc["insts"]:
+        exp = m_expected_flows(sc, i)
+        wbk = m_workbook(sc, [i])
+        r = compile_index(wbk)
+        should = all(v is not None for v in exp.values())
+        solo_ok[i["k"]] = should
+        bump("multi.solo_" + ("ok" if should else "rejected"))
+        if r.ok != should:
+            viol.append({"what": ("one instantiation alone: a delivered row names an undefined variable but the run is accepted" if r.ok else
+                                  "one instantiation alone: everything referenced is defined but the run is rejected"),
+                         "sheets": wbk, "instantiation": i, "errors": [r.exc, r.errors[:2]], "expected": exp})
+        elif r.ok and messages_by_flow(r.doc) != exp:
+            viol.append({"what": "one instantiation alone: messages are not exactly the substituted values", "sheets": wbk, "instantiation": i,
+                         "got": messages_by_flow(r.doc), "expected": exp})
+    for order, insts in (("as_listed", sc["insts"]), ("reversed", m_reverse(sc["insts"]))):
+        exp = {}
+        for i in insts:
+            exp.update(m_expected_flows(sc, i))
+        should = all(v is not None for v in exp.values())
+        # stale-prone: a referenced name defined by an earlier step and not by a later one
+        seq = [s for i in insts for s in m_names(sc, i)]
+        refs = set(sc["refs"]) | ({M_LV} if any(M_LV in (it[2] if it[0] == "msg" else []) for it in sc["desc"]) else set())
+        prone = any((seq[a] - seq[b]) & refs for a in range(len(seq)) for b in range(a + 1, len(seq)))
+        bump("multi.combined_runs")
+        bump("multi.stale_prone", prone)
+        wbk = m_workbook(sc, insts)
+        r = compile_index(wbk)
+        bump("multi.combined_" + ("accepted" if r.ok else "rejected"))
+        rep = {"sheets": wbk, "scenario": sc["kind"], "order": order, "instantiations": insts, "template_refs": sc["refs"]}
+        if r.ok and not should:
+            got = messages_by_flow(r.doc)
+            bad = {n: got.get(n) for n, v in exp.items() if v is None}
+            fresh = [i for i in insts if not solo_ok[i["k"]]]
+            viol.append({"what": "one template instantiated several times in one run: an instantiation that is rejected in a fresh run on its own (it names a variable its "
+                                 "context does not define) is accepted after an earlier instantiation of the same template, and delivers " + json.dumps(bad, ensure_ascii=False)[:300],
+                         **rep, "delivered_for_undefined": bad, "rejected_alone": fresh})
+        elif not r.ok and should:
+            viol.append({"what": "one template instantiated several times: every instantiation is accepted alone but the combined run is rejected", **rep,
+                         "errors": [r.exc, r.errors[:2]]})
+        elif r.ok and messages_by_flow(r.doc) != exp:
+            viol.append({"what": "one template instantiated several times: delivered messages are not exactly each instantiation's own values", **rep,
+                         "got": messages_by_flow(r.doc), "expected": exp})
+        if prone and not should and solo_ok.get(insts[0]["k"]) and len(cli) < 1:
+            cli.append(("multi-instantiation, later one undefined (" + sc["kind"] + ", " + order + ")", "error", wbk))
+        elif should and prone is False and len(insts) > 1 and not cli:
+            cli.append(("multi-instantiation, all defined (" + sc["kind"] + ")", "ok", wbk))
+    return viol, stats, cli
+
+
+DEMO_MULTI = {
+    "kind": "two_sheets", "pivot": "city", "refs": ["name", "city"],
+    "template": [{"row_id": "", "type": "send_message", "from": "start", "message_text": "m0 name={{name}} city={{city}}"}],
+    "desc": [("msg", 0, ["name", "city"])],
+    "data": {"sa": [{"ID": "ann", "name": "Ann", "city": "Nairobi"}, {"ID": "bob", "name": "Bob", "city": "Kampala"}], "sb": [{"ID": "louvre", "name": "Louvre"}]},
+    "cols": {"sa": ["name", "city"], "sb": ["name"]},
+    "insts": [{"t": "bulk", "sheet": "sa", "args": "", "k": 0}, {"t": "bulk", "sheet": "sb", "args": "", "k": 1}],
+}
+
+
+def multi_worker(args):
+    seed, n = args
+    rng = random.Random(seed)
+    stats, viol, keys, cli = {}, [], [], []
+    for j in range(n):
+        sc = copy.deepcopy(DEMO_MULTI) if (seed == 0 and j == 0) else gen_multi(rng)
+        v, st, c = multi_check(sc)
+        for k, x in st.items():
+            stats[k] = stats.get(k, 0) + int(x)
+        viol += v
+        cli += c
+        keys.append(json.dumps([sc["template"], sc["data"], sc["insts"]], sort_keys=True))
+    return {"stats": stats, "viol": sorted(viol, key=lambda x: len(json.dumps(x, default=str)))[:6], "nviol": len(viol), "keys": keys, "cli": cli[:6]}
+
+
 # ------------------------------------------------------------------ CLI
 
 
@@ -1051,7 +1367,8 @@ def run(ck: core.Check):
         "range, attribute of a string/list, step past an undefined, integer index on a record, case changed, loop variable outside its "
         "loop) placed at top level / inside a loop body / inside a true if / inside a false if / inside a loop over nothing, random "
         "padding, parse and parse_as_string; end to end: every non-blank cell (and sampled blank ones) of generated core sheets and of a "
-        "sugared sheet with one injected undefined name in 7 syntactic styles + a defined control; fixed workbook families; distinct = "
+        "sugared sheet with one injected undefined name in 7 syntactic styles + a defined control; fixed workbook families; random content "
+        "indexes instantiating ONE template 2–4 times (8 scenario kinds, both orders) compared with a fresh run of each instantiation alone; distinct = "
         "distinct (cell text, context, entry point) / distinct (sheet, cell, style)"
     )
     ck.assumptions = [
@@ -1110,11 +1427,25 @@ def run(ck: core.Check):
             ck.samples.append(r["sample"])
         cli_pool += r["cli"]
 
+    # ---- one template instantiated several times in one run (independence of instantiations)
+    n_multi = 320 if quick else 4000
+    mjobs = [(0 if k == 0 else ck.rng.randrange(1 << 60), n_multi // par.NPROC) for k in range(par.NPROC)]
+    multi_cli = []
+    for r in par.pmap(multi_worker, mjobs):
+        for k, v in r["stats"].items():
+            ck.count(k, v)
+        for key in r["keys"]:
+            ck.case(key, nontrivial=True)
+        for v in r["viol"]:
+            ck.violation(v["what"], v)
+        multi_cli += r["cli"]
+    multi_cli = [c for c in multi_cli if c[1] == "error"][: (5 if quick else 16)] + [c for c in multi_cli if c[1] == "ok"][: (2 if quick else 6)]
+
     # ---- fixed families (library), then the CLI on all of them + a sample of the injected sheets
     fam = family_cases()
     scratch = tempfile.mkdtemp(prefix="c16_")
     try:
-        cli_jobs = []
+        cli_jobs = [(name, kind, sheets, None, scratch, f"multi{k}") for k, (name, kind, sheets) in enumerate(multi_cli)]
         for k, (name, kind, sheets, exp) in enumerate(fam):
             r = compile_index(sheets)
             ck.case("family " + name, nontrivial=True)
@@ -1135,7 +1466,7 @@ def run(ck: core.Check):
             cli_jobs.append((f"control cell {c['cell']}", "ok", sheet_as_workbook(c["control"], c["ctx"]), None, scratch, f"ctl{k}"))
         if quick:
             # the CLI costs ~1.5 s per run: all error families, a few ok ones
-            cli_jobs = [j for j in cli_jobs if j[1] == "error"][:28] + [j for j in cli_jobs if j[1] == "ok"][:10]
+            cli_jobs = [j for j in cli_jobs if j[1] == "error"][:33] + [j for j in cli_jobs if j[1] == "ok"][:12]
         from concurrent.futures import ThreadPoolExecutor
         with ThreadPoolExecutor(par.NPROC) as ex:
             for name, kind, exp, rc, doc, log, sheets in ex.map(cli_job, cli_jobs):
@@ -1178,7 +1509,8 @@ def run(ck: core.Check):
 
     # ---- generator self-check
     need = ["inject.none", "kind.native", "kind.text", "ctx.none", "ctx.empty", "where.unreached_if", "where.unreached_for", "where.in_for",
-            "expect.error_required", "expect.text", "expect.value", "expect.stripped", "e2e.injected", "e2e.control", "lenient.cases"] + [f"inject.{k}" for k in MISSING_KINDS + ["loop_var_outside"]]
+            "expect.error_required", "expect.text", "expect.value", "expect.stripped", "e2e.injected", "e2e.control", "lenient.cases",
+            "multi.stale_prone", "multi.combined_accepted", "multi.combined_rejected", "multi.solo_ok", "multi.solo_rejected"] + [f"multi.kind.{k}" for k in M_SCENARIOS] + [f"inject.{k}" for k in MISSING_KINDS + ["loop_var_outside"]]
     for s in need:
         if ck.strata.get(s, 0) < 3:
             raise core.Infra(f"generator stratum {s} under-represented: {ck.strata.get(s, 0)}")
